@@ -46,6 +46,43 @@ class MDecimal:
         n = -exp.as_tuple().exponent
         return MDecimal(round_real(self.real, n, rounding or CURRENT['rounding']))
 
+    # arithmetic between decimals (exact; the 28-digit context rounding of a non-terminating quotient is outside the model)
+    @staticmethod
+    def _real(o):
+        if isinstance(o, MDecimal):
+            return o.real
+        if isinstance(o, decimal.Decimal):
+            return z3.RealVal(str(o))
+        if isinstance(o, int) and not isinstance(o, bool):
+            return z3.RealVal(o)
+        raise Unsupported('Decimal arithmetic with ' + type(o).__name__)
+
+    def sym_div(self, other, it, br):
+        d = self._real(other)
+        if br.decide(d == 0):
+            raise Raised('DivisionByZero')
+        return MDecimal(self.real / d)
+
+    def sym_rdiv(self, other, it, br):
+        if br.decide(self.real == 0):
+            raise Raised('DivisionByZero')
+        return MDecimal(self._real(other) / self.real)
+
+    def sym_mul(self, other, it, br):
+        return MDecimal(self.real * self._real(other))
+
+    def sym_rmul(self, other, it, br):
+        return MDecimal(self._real(other) * self.real)
+
+    def to_integral_value(self, rounding=None):
+        mode = rounding or CURRENT['rounding']
+        fl = z3.ToReal(z3.ToInt(self.real))
+        if mode == decimal.ROUND_FLOOR:
+            return MDecimal(fl)
+        if mode == decimal.ROUND_CEILING:
+            return MDecimal(-z3.ToReal(z3.ToInt(-self.real)))
+        return MDecimal(round_real(self.real, 0, mode))
+
     def adjusted(self, it, br):
         """Exponent of the most significant digit.  Exact (forked) from 16 up to ADJ_MAX; below 16 a fresh integer e <= 15 (only
         ever compared with / added to small constants by the code under analysis: an over-approximation)."""
